@@ -17,7 +17,7 @@ from ..consteval import ConstEval, is_const
 from ..core import (AnalysisError, FuncInfo, ancestors, ap, call_attr, calls, enclosing_stmt, facts, find_calls,
                     handler_catches_all, handler_reraises, is_none_test, norm, parent, paths_in, src, stores,
                     try_contexts, walk, FUNC_TYPES)
-from .common import (call_index, cfg_node_expr, cfg_node_fallible, cfg_search, class_methods_reachable, is_benign_call,
+from .common import (call_index, inlined_funcinfo, origin, cfg_node_expr, cfg_node_fallible, cfg_search, class_methods_reachable, is_benign_call,
                      store_index)
 
 EVM = "hippolyzer/lib/proxy/http_event_manager.py"
@@ -112,6 +112,35 @@ def _handback_checks(ctx, R, fi: FuncInfo, cfg: CFG, resume: ast.Call, want: Set
     return hnodes
 
 
+def _callees(repo, start: FuncInfo, depth=3) -> List[FuncInfo]:
+    """start plus repo functions it (transitively) calls: same-module functions by name, methods via
+    self/cls, and Class.method where Class resolves to a repo class."""
+    out, frontier = [start], [start]
+    for _ in range(depth):
+        nxt = []
+        for f in frontier:
+            for c in calls(f.node, into_defs=True):
+                fn = c.func
+                cand = None
+                if isinstance(fn, ast.Name):
+                    cs = [g for g in repo.funcs.get(fn.id, []) if g.cls is None and g.parent_fn is None and
+                          (g.module is f.module or f.module.imports.get(fn.id, "").endswith("." + fn.id))]
+                    cand = cs[0] if len(cs) == 1 else None
+                elif isinstance(fn, ast.Attribute):
+                    rp = ap(fn.value)
+                    if rp in ("self", "cls") and f.cls is not None:
+                        cand = repo.lookup_method(f.cls, fn.attr)
+                    elif rp:
+                        ci = repo.resolve_class(rp, f.module)
+                        if ci is not None:
+                            cand = repo.lookup_method(ci, fn.attr)
+                if cand is not None and cand not in out:
+                    out.append(cand)
+                    nxt.append(cand)
+        frontier = nxt
+    return out
+
+
 # --------------------------------------------------------------------------- R1
 
 def r1(ctx):
@@ -170,6 +199,29 @@ def r1(ctx):
            "leaves the function with the flow neither taken nor handed back: it stays intercepted forever",
            pe_cfg.describe_path(path) if path else None)
 
+    # hydration runs before the flow object (and hence the hand-back) exists: it must be total with respect
+    # to state that legitimately changes while a request is outstanding (sessions / regions going away)
+    hyd = _callees(repo, repo.fn("HippoHTTPFlow.from_state"), depth=3)
+    ctx.floor(R, "functions on the hydration path", len(hyd), 2)
+    partial = 0
+    for f in hyd:
+        for c in calls(f.node, into_defs=True):
+            if isinstance(c.func, ast.Name) and c.func.id == "next" and not c.keywords and c.args and \
+                    isinstance(c.args[0], (ast.GeneratorExp, ast.Call, ast.Name)):
+                partial += 1
+                ctx.ob(R, f"{f.qual}: search `{norm(c)}` has a default", len(c.args) >= 2, ctx.w(f, c),
+                       "next() without a default raises StopIteration when nothing matches (e.g. the session was "
+                       "closed meanwhile): from_state fails before the try/finally, the flow is never handed back")
+        for x in walk(f.node, into_defs=True):
+            if isinstance(x, ast.Subscript) and isinstance(x.ctx, ast.Load) and isinstance(x.value, ast.ListComp) \
+                    and x.value.generators and x.value.generators[0].ifs:
+                partial += 1
+                ctx.ob(R, f"{f.qual}: search `{norm(x)}` cannot come up empty", False, ctx.w(f, x),
+                       "indexing a filtered list raises IndexError when nothing matches: from_state fails before the "
+                       "try/finally, the flow is never handed back")
+    ctx.ob(R, "hydration path (from_state and its helpers) contains no partial search", True,
+           repo.fn("HippoHTTPFlow.from_state").where, f"{len(hyd)} functions, {partial} searches")
+
     # the event loop survives a failing event
     run = repo.fn("MITMProxyEventManager.run")
     pumps = [c for c in find_calls(run.node, "pump_proxy_event")]
@@ -184,6 +236,19 @@ def r1(ctx):
 
 FLOW_OWNERS = {"HippoHTTPFlow.__init__", "HippoHTTPFlow.take", "HippoHTTPFlow.resume"}
 PUT_OWNERS = {"HippoHTTPFlow.resume", "HippoHTTPFlow.preempt"}
+
+
+def _owned(repo, f: FuncInfo, owners: Set[str], depth=2) -> bool:
+    """f is an owner, or a private helper method of an owner's class all of whose call sites
+    (`self.<name>(...)`, by name over the whole tree) lie in owners / such helpers."""
+    if f.qual in owners:
+        return True
+    if depth <= 0 or f.cls is None or not any(o.startswith(f.cls.name + ".") for o in owners):
+        return False
+    sites = call_index(repo).get(f.name, [])
+    return bool(sites) and all(
+        isinstance(c.func, ast.Attribute) and ap(c.func.value) in ("self", "cls") and g.cls is not None
+        and g.cls == f.cls and _owned(repo, g, owners, depth - 1) for g, c in sites)
 
 
 def _self_fact(node, fn, attr, polarity):
@@ -218,7 +283,7 @@ def r2(ctx):
             if base in ("self", "cls") and (f.cls is None or f.cls.qual not in family):
                 continue
             n += 1
-            ctx.ob(R, f"{f.qual}: {st.path} written by an owner", f.qual in FLOW_OWNERS, ctx.w(f, st.node),
+            ctx.ob(R, f"{f.qual}: {st.path} written by an owner", _owned(repo, f, FLOW_OWNERS), ctx.w(f, st.node),
                    f"flow ownership flag written outside {sorted(FLOW_OWNERS)}")
     ctx.floor(R, "taken/resumed stores", n, 3)
 
@@ -227,7 +292,7 @@ def r2(ctx):
                 and isinstance(x.ast.value, ast.Constant) and x.ast.value.value is val
                 and any(ap(t) == f"self.{attr}" for t in x.ast.targets)}
 
-    take = repo.fn("HippoHTTPFlow.take")
+    take = inlined_funcinfo(repo, repo.fn("HippoHTTPFlow.take"))
     cfg = CFG(take.node)
     sn = store_nodes(cfg, "taken", True)
     path = cfg_search(cfg, [cfg.entry], target=lambda x: x is cfg.exit, avoid=lambda x: x in sn, follow_exc=lambda x: False)
@@ -238,7 +303,7 @@ def r2(ctx):
                _self_fact(x.ast, take.node, "taken", False) and _self_fact(x.ast, take.node, "resumed", False),
                ctx.w(take, x.ast), "taking a flow twice / after hand-back leads to a second hand-back")
 
-    res = repo.fn("HippoHTTPFlow.resume")
+    res = inlined_funcinfo(repo, repo.fn("HippoHTTPFlow.resume"))
     cfg = CFG(res.node)
     puts = _queue_puts(res.node)
     ctx.ob(R, "HippoHTTPFlow.resume: exactly one queue put", len(puts) == 1, res.where, f"found {len(puts)}")
@@ -260,7 +325,7 @@ def r2(ctx):
             ctx.note("C15.R2: HippoHTTPFlow.resume enqueues before marking resumed (design lists the opposite order; "
                      "not a necessary condition in a synchronous method)")
 
-    pre = repo.fn("HippoHTTPFlow.preempt")
+    pre = inlined_funcinfo(repo, repo.fn("HippoHTTPFlow.preempt"))
     puts = _queue_puts(pre.node)
     ctx.ob(R, "HippoHTTPFlow.preempt: exactly one queue put", len(puts) == 1, pre.where, f"found {len(puts)}")
     for c in puts:
@@ -275,10 +340,10 @@ def r2(ctx):
         for f, c in idx.get(name, []):
             if c in _queue_puts(c):
                 nput += 1
-                ctx.ob(R, f"{f.qual}: {norm(c.func)}(...) by resume/preempt", f.qual in PUT_OWNERS, ctx.w(f, c),
+                ctx.ob(R, f"{f.qual}: {norm(c.func)}(...) by resume/preempt", _owned(repo, f, PUT_OWNERS), ctx.w(f, c),
                        "callback queue written outside HippoHTTPFlow.resume/preempt: a flow can be handed back "
                        "without the resumed flag being consulted")
-    ctx.floor(R, "proxy-queue puts", nput, 2)
+    ctx.floor(R, "proxy-queue puts", nput, 1)
 
 
 def _pump_fns(repo) -> List[FuncInfo]:
@@ -649,8 +714,8 @@ def r4(ctx):
                        f"value `{norm(e)}` reads {sorted(mentioned)}")
 
     # ---- get_state / from_state
-    gs = repo.fn("HippoHTTPFlow.get_state")
-    fs = repo.fn("HippoHTTPFlow.from_state")
+    gs = inlined_funcinfo(repo, repo.fn("HippoHTTPFlow.get_state"))
+    fs = inlined_funcinfo(repo, repo.fn("HippoHTTPFlow.from_state"))
     cev = ConstEval(repo, gs.module)
 
     def ckey(node):
@@ -666,8 +731,14 @@ def r4(ctx):
             ap(st.target) if isinstance(st, ast.AnnAssign) else None
         ctx.require(k_obj is not None and cvar is not None, f"{R}: get_state pop is not `<name> = metadata.pop(<const>, ...)`")
         sets = [s for s in stores(gs.node, into_defs=False) if s.kind == "setitem" and s.path.endswith("metadata")]
-        ser_sets = [s for s in sets if isinstance(s.value, ast.Call) and call_attr(s.value) == "serialize"
-                    and ap(s.value.func.value) == cvar]
+        def from_pop(e):
+            return origin(gs.node, e) is pop or ap(e) == cvar
+
+        def serialises_popped(e):
+            return e is not None and any(isinstance(x, ast.Call) and call_attr(x) == "serialize"
+                                         and isinstance(x.func, ast.Attribute) and from_pop(x.func.value)
+                                         for x in ast.walk(e))
+        ser_sets = [s for s in sets if serialises_popped(s.value)]
         ctx.ob(R, f"get_state stores {cvar}.serialize() into the metadata", len(ser_sets) == 1, gs.where, f"found {len(ser_sets)}")
         k_ser = ckey(ser_sets[0].target.slice) if ser_sets else None
         cfg = CFG(gs.node)
@@ -682,13 +753,53 @@ def r4(ctx):
                    ctx.w(gs, inner[0]), "the snapshot is taken without the serialised cap data",
                    cfg.describe_path(path) if path else None)
         restore = {n for n in cfg.nodes for s in sets if n.ast is s.node and ckey(s.target.slice) == k_obj
-                   and ap(s.value) == cvar}
+                   and s.value is not None and from_pop(s.value)}
         pn = cfg.stmt_nodes_containing(pop)
         path = cfg_search(cfg, pn, target=lambda n: n is cfg.exit, avoid=lambda n: n in restore, follow_exc=lambda n: False,
                           start_edges="normal")
         ctx.ob(R, f"get_state: metadata[{k_obj!r}] restored on every path to return", bool(restore) and path is None,
                gs.where, "after handing a flow back its cap_data is gone on this side (taken flows keep being used)",
                cfg.describe_path(path) if path else None)
+
+        # nobody else overwrites resolved cap data: a store to metadata[k_ser] outside get_state's own
+        # helpers must be dominated by "there is no cap data for this flow"
+        if k_ser is not None:
+            legit = {f.full for f in _callees(repo, repo.fn("HippoHTTPFlow.get_state"), depth=2)}
+            n_other = 0
+            for f, st in store_index(repo).get("metadata", []):
+                if st.kind != "setitem" or f.full in legit or not isinstance(st.target, ast.Subscript):
+                    continue
+                if ConstEval(repo, f.module).ev(st.target.slice) != k_ser:
+                    continue
+                n_other += 1
+                recv = ap(st.target.value)
+
+                def reads_key(e, f=f, recv=recv):
+                    e = origin(f.node, e)
+                    k = None
+                    if isinstance(e, ast.Call) and isinstance(e.func, ast.Attribute) and e.func.attr == "get" and e.args \
+                            and (ap(e.func.value) or "").endswith("metadata"):
+                        k = ConstEval(repo, f.module).ev(e.args[0])
+                    elif isinstance(e, ast.Subscript) and (ap(e.value) or "").endswith("metadata"):
+                        k = ConstEval(repo, f.module).ev(e.slice)
+                    return k == k_ser
+                ok = False
+                for e, pol in facts(st.node, f.node):
+                    if not pol and reads_key(e):
+                        ok = True
+                    if isinstance(e, ast.Compare) and len(e.ops) == 1 and (ap(e.comparators[0]) or "").endswith("metadata") \
+                            and ConstEval(repo, f.module).ev(e.left) == k_ser and \
+                            ((isinstance(e.ops[0], ast.NotIn) and pol) or (isinstance(e.ops[0], ast.In) and not pol)):
+                        ok = True
+                    nt = is_none_test(e)
+                    if nt is not None and pol == nt[1]:
+                        for x in ast.walk(e):
+                            if isinstance(x, ast.Name) and x.id == nt[0] and reads_key(x):
+                                ok = True
+                ctx.ob(R, f"{f.qual}: store to {recv}[{k_ser!r}] only when no cap data was resolved", ok, ctx.w(f, st.node),
+                       "the serialised cap data sent over by the main process (name, type, owning session and region) is "
+                       "overwritten: the response event is routed without its session/region")
+            ctx.ob(R, f"stores to metadata[{k_ser!r}] outside get_state checked", True, gs.where, f"{n_other} store(s)")
 
         # from_state
         fev = ConstEval(repo, fs.module)
@@ -709,8 +820,10 @@ def r4(ctx):
             if isinstance(st, ast.Assign) and len(st.targets) == 1:
                 dvars.add(ap(st.targets[0]))
         dcalls = [c for c in find_calls(fs.node, "deserialize", into_defs=False) if (ap(c.func) or "").endswith("CapData.deserialize")]
+        read_nodes = [node for node, _ in reads]
         ctx.ob(R, "from_state hydrates via CapData.deserialize(<value read>)", len(dcalls) == 1 and bool(dcalls[0].args)
-               and ap(dcalls[0].args[0]) in dvars, fs.where)
+               and (ap(dcalls[0].args[0]) in dvars or any(origin(fs.node, dcalls[0].args[0]) is rn for rn in read_nodes)),
+               fs.where)
         fcfg = CFG(fs.node)
         fsets = [s for s in stores(fs.node, into_defs=False) if s.kind == "setitem" and s.path.endswith("metadata")
                  and fev.ev(s.target.slice) == k_obj]
@@ -718,7 +831,7 @@ def r4(ctx):
         path = cfg_search(fcfg, [fcfg.entry], target=lambda n: n is fcfg.exit, avoid=lambda n: n in sn, follow_exc=lambda n: False)
         ctx.ob(R, f"from_state sets metadata[{k_obj!r}] on every path to return", bool(sn) and path is None, fs.where,
                "hydrated flow without cap_data")
-        hyd = [s for s in fsets if isinstance(s.value, ast.Call) and s.value in dcalls]
+        hyd = [s for s in fsets if s.value is not None and any(x in dcalls for x in ast.walk(s.value))]
         ctx.ob(R, f"from_state stores the deserialised CapData under {k_obj!r}", len(hyd) == 1, fs.where)
 
     # ---- metadata defaults
